@@ -2,6 +2,7 @@ import WfProofs.RunnerTerminal
 import WfProofs.EngineTelemetry
 import WfProofs.RunnerNoCrash
 import WfProofs.EnginePolicyEscapes
+import WfProofs.StreamGate
 /-!
 # C04 — every run ends once, and its stream ends with the matching terminal event
 
@@ -256,3 +257,107 @@ invariant excludes: there the reducer does raise -/
 example :
     let r0 : Runner := { st := initState, buf := [.stepResult 0 0 C04.startEv [.result none]] }
     (Runner.run C04.okCfg (fun _ _ _ _ => .stop) r0 [.drain]).outcome = some .crashed := by decide
+
+/-! ## Several consumers of one run's stream (`ExternalAsyncioAdapter.stream_published_events`)
+
+"... so a consumer of stream_events() always terminates when the run does" — for *every* consumer, also one that
+arrives while another one owns the stream.  On the stream-gate LTS (`WfModel/StreamGate.lean`: FIFO stream lock,
+"already consumed" guard, publish queue; actions = the await-free sections of the code, any number of consumers,
+any interleaving with the run's publications and the end of its task), with the guard as the current source has
+it (`StreamGate.srcCfg`, re-extracted on every run):
+
+* `C04_overlap_source_shape` pins the extracted shape: one guard, first statement under the stream lock, testing
+  `(stream_finished or complete.done()) and publish_queue.empty()`, followed by the pulling loop that sets
+  `stream_finished` before it yields the terminal item and stops after it;
+* `C04_overlap_exactly_once`: in every reachable state what was delivered, in delivery order, followed by what is
+  still queued is exactly what the run published — nothing lost, nothing delivered twice, whatever the consumers do;
+* the statement at full strength, `C04_overlap_statement`: whenever the terminal item has been taken, the run's task
+  is done and nothing is enabled any more, every consumer has terminated.  `C04_overlap_holds`: it is a theorem of
+  the current source.  Of the code **before** the repair of
+  C04/overlap_consumer_never_terminates:stream_free_before_outcome_available (guard testing `complete.done()` alone)
+  it is false (`C04_overlap_refuted_unrepaired`): the lock is released as soon as the consumer that has the terminal
+  item asks for more, which may be before the run's task is done; the next consumer passed the guard and waited
+  for ever.  The strongest part true of that code, `C04_overlap_guarded_unrepaired`: if no consumer enters the
+  locked section between "terminal item taken" and "run's task done" (decidable on the run, `noEntryInWindow`) —
+  e.g. because the owner awaits the run's outcome before it lets go;
+* `C04_overlap_guard_position_matters`: with the guard evaluated in front of the lock the statement fails again,
+  flag or not (the waiter was admitted when the run was still going and nothing re-checks).
+-/
+section Overlap
+open StreamGate
+
+theorem C04_overlap_source_shape :
+    GenStreamGate.found = true ∧ GenStreamGate.lockIsStreamLock = true ∧ GenStreamGate.guardCount = 1 ∧
+    GenStreamGate.guardUnderLock = true ∧ GenStreamGate.guardFirstUnderLock = true ∧
+    GenStreamGate.guardTest = 2 ∧ GenStreamGate.loopShape = 2 ∧ GenStreamGate.flagInit = true ∧
+    GenStreamGate.flagWrites = 2 ∧ GenStreamGate.stmtsOutsideLock = 0 ∧
+    srcCfg = { guardUnderLock := true, finishedFlag := true } := by decide
+
+theorem C04_overlap_exactly_once (cfg : StreamGate.Cfg) (acts : List StreamGate.Act) :
+    let s := StreamGate.run cfg StreamGate.init acts
+    s.log.map Prod.snd ++ s.queue = s.published :=
+  run_log cfg acts StreamGate.init rfl
+
+example :
+    let s := StreamGate.run srcCfg StreamGate.init
+      [.arrive 0 (some 1), .arrive 1 none, .publish (.note 5), .take, .publish (.note 6), .wake, .publish .term, .take]
+    (s.log, s.queue, s.published) =
+      ([(0, .note 5), (1, .note 6), (1, .term)], [], [.note 5, .note 6, .term]) := by decide
+
+/-- every consumer terminates once the run has ended (full strength) -/
+def C04_overlap_statement (cfg : StreamGate.Cfg) : Prop :=
+  ∀ acts : List StreamGate.Act,
+    let s := StreamGate.run cfg StreamGate.init acts
+    s.termTaken = true → s.complete = true → quiescent s = true → allTerminated s = true
+
+theorem C04_overlap_holds : C04_overlap_statement srcCfg := by
+  intro acts s htt _ hq
+  exact terminated_of_inv s (run_inv_flag srcCfg rfl rfl acts StreamGate.init inv_init) htt hq
+
+/-- consumer 0 owns the stream, consumer 1 queues behind it; the run publishes its terminal item, consumer 0 takes
+it and asks for more (its generator ends, the lock is released) before the run's task is done; consumer 1 gets the
+lock; then the task finishes -/
+def C04.overlapWitness : List StreamGate.Act :=
+  [.arrive 0 none, .arrive 1 none, .publish .term, .take, .finish, .wake, .complete]
+
+/-- non-vacuity: on the witness the current source refuses consumer 1 -/
+example :
+    let s := StreamGate.run srcCfg StreamGate.init C04.overlapWitness
+    s.termTaken = true ∧ s.complete = true ∧ quiescent s = true ∧ s.done = [(1, .refused), (0, .ended)] := by decide
+
+/-- the code before the repair: the guard sees "not done", consumer 1 waits on the empty queue, nothing wakes it -/
+theorem C04_overlap_refuted_unrepaired : ¬ C04_overlap_statement { guardUnderLock := true, finishedFlag := false } := by
+  intro h
+  have := h C04.overlapWitness
+  revert this
+  decide
+
+theorem C04_overlap_guarded_unrepaired (flag : Bool) (acts : List StreamGate.Act)
+    (hg : noEntryInWindow { guardUnderLock := true, finishedFlag := flag } StreamGate.init acts = true) :
+    let s := StreamGate.run { guardUnderLock := true, finishedFlag := flag } StreamGate.init acts
+    s.termTaken = true → s.complete = true → quiescent s = true → allTerminated s = true := by
+  intro s htt _ hq
+  exact terminated_of_inv s (run_inv _ rfl acts StreamGate.init inv_init hg) htt hq
+
+/-- non-vacuity: the owner holds the terminal item until the run's task is done; the two consumers behind it are
+refused one after the other -/
+example :
+    let cfg : StreamGate.Cfg := { guardUnderLock := true, finishedFlag := false }
+    let acts : List StreamGate.Act := [.arrive 0 none, .arrive 1 none, .arrive 2 (some 2), .publish (.note 1), .take,
+                            .publish .term, .take, .complete, .finish, .wake, .wake]
+    let s := StreamGate.run cfg StreamGate.init acts
+    noEntryInWindow cfg StreamGate.init acts = true ∧ s.termTaken = true ∧ s.complete = true ∧
+      quiescent s = true ∧ s.done = [(2, .refused), (1, .refused), (0, .ended)] := by decide
+
+/-- the witness of `C04_overlap_refuted_unrepaired` is excluded by the guard of `C04_overlap_guarded_unrepaired` -/
+example : noEntryInWindow { guardUnderLock := true, finishedFlag := false } StreamGate.init C04.overlapWitness = false := by
+  decide
+
+theorem C04_overlap_guard_position_matters (flag : Bool) :
+    ∃ acts : List StreamGate.Act,
+      let s := StreamGate.run { guardUnderLock := false, finishedFlag := flag } StreamGate.init acts
+      noEntryInWindow { guardUnderLock := false, finishedFlag := flag } StreamGate.init acts = true ∧ s.termTaken = true ∧
+        s.complete = true ∧ quiescent s = true ∧ allTerminated s = false :=
+  ⟨[.arrive 0 none, .arrive 1 none, .publish .term, .take, .complete, .finish, .wake], by cases flag <;> decide⟩
+
+end Overlap
